@@ -6,7 +6,9 @@ Record case := mkCase {
   c_hist : list cop;             (* history; the batch is committed at the end *)
   o_outs : list cout;            (* observed: output per operation *)
   o_led : list (key * val);      (* observed: ledger after BatchCacheStub.Commit, sorted *)
-  o_calls : list write           (* observed: PutState/DelState calls on the ledger stub, sorted *)
+  o_calls : list write;          (* observed: PutState/DelState calls on the ledger stub, sorted *)
+  o_lost_commit_error : bool     (* the same history run again on a ledger that refuses the write of one flushed key (each
+                                    in turn): some Commit reported success although a write had been refused *)
 }.
 
 Definition model_obs (c : case) : list cout * list (key * val) * list write :=
@@ -33,7 +35,10 @@ Definition holds (c : case) : bool :=
   let lobs : ledger := list_to_map (o_led c) in
   bool_decide (outs = o_outs c) &&
   forallb (fun k => bool_decide (lobs !! k = s_final_at s k)) (universe c) &&
-  bool_decide (o_calls c = wlist (sb s)).
+  bool_decide (o_calls c = wlist (sb s)) &&
+  (* "the ledger receives exactly the final value or deletion of every key written": a commit that could not deliver one
+     of them must say so *)
+  negb (o_lost_commit_error c).
 
 (* path label: which cache layers were exercised (bit set) *)
 Fixpoint label_run (s : sst) (h : list cop) (acc : N) : N :=
